@@ -11,7 +11,9 @@ import (
 	"math"
 	"sort"
 	"strconv"
+	"strings"
 	"sync"
+	"time"
 
 	"github.com/go-logr/logr"
 	v1 "k8s.io/api/core/v1"
@@ -21,10 +23,14 @@ import (
 	crlog "sigs.k8s.io/controller-runtime/pkg/log"
 
 	"github.com/NVIDIA/KAI-scheduler/pkg/apis/scheduling/v1alpha2"
+	"github.com/NVIDIA/KAI-scheduler/pkg/binder/binding/resourcereservation"
 	bindercommon "github.com/NVIDIA/KAI-scheduler/pkg/binder/common"
 	"github.com/NVIDIA/KAI-scheduler/pkg/binder/common/gpusharingconfigmap"
 	bindergpu "github.com/NVIDIA/KAI-scheduler/pkg/binder/plugins/gpusharing"
 	"github.com/NVIDIA/KAI-scheduler/pkg/binder/plugins/state"
+	"github.com/NVIDIA/KAI-scheduler/pkg/common/resources"
+	"github.com/NVIDIA/KAI-scheduler/pkg/scheduler/api/pod_info"
+	"github.com/NVIDIA/KAI-scheduler/pkg/scheduler/api/resource_info"
 
 	u "kaiverif/internal/util"
 )
@@ -213,6 +219,18 @@ type roundObs struct {
 	Err          string                       `json:"prebind_error,omitempty"`
 	Maps         map[string]map[string]string `json:"configMaps"`
 	Env          []contEnv                    `json:"effective_env"`
+	Labels       labelObs                     `json:"gpu_group_labels"`
+}
+
+// labelObs: the reservation service's part of the bind (reserveGPUs: one ReserveGpuDevice per selected GPU group, each
+// ending in updatePodGPUGroup's label patch), and what the scheduler reads from the labelled pod afterwards.
+type labelObs struct {
+	Selected []string          `json:"selectedGPUGroups"` // of the scheduler's BindRequest
+	Ok       bool              `json:"reserve_ok"`
+	Err      string            `json:"reserve_error,omitempty"`
+	Indexes  []string          `json:"reserved_indexes,omitempty"`
+	Labels   map[string]string `json:"pod_labels_after_binding"` // as stored at the API server
+	Reread   []string          `json:"scheduler_rereads_groups"` // NewTaskInfo on the labelled pod, sorted
 }
 
 type bindObs struct {
@@ -222,6 +240,98 @@ type bindObs struct {
 	RefName  string                       `json:"container_ref_name,omitempty"`
 	Pre      map[string]map[string]string `json:"configMapsBefore,omitempty"`
 	Rounds   []roundObs                   `json:"rounds"`
+	// the number of devices: what the binder reads (resources.GetNumGPUFractionDevices / IsMultiFraction on the
+	// pod it binds) next to what the scheduler interpreted (ResReq.GetNumOfGpuDevices)
+	SchedDevices  int64  `json:"scheduler_devices"`
+	BinderDevices int64  `json:"binder_devices"`
+	BinderDevErr  string `json:"binder_devices_error,omitempty"` // "not-found" | "parse"
+	IsMulti       bool   `json:"binder_is_multi_fraction"`
+	IsMultiErr    bool   `json:"binder_is_multi_fraction_error,omitempty"`
+}
+
+const (
+	resNS        = "kai-resource-reservation"
+	gpuIndexAnn  = "run.ai/reserve_for_gpu_index"
+	gpuGroupKey  = "runai-gpu-group"
+	multiGroupPf = "runai-gpu-group/"
+)
+
+// labelPod runs the real reservation service for the BindRequest's selected groups on an API server (fake client)
+// where the pod exists unbound and every group's reservation pod exists already and reports its device index.
+func labelPod(pod *v1.Pod, groups []string, ids []string) (o labelObs) {
+	o.Selected = append([]string{}, groups...)
+	o.Labels = map[string]string{}
+	o.Reread = []string{}
+	defer func() {
+		if rec := recover(); rec != nil {
+			o.Ok, o.Err = false, fmt.Sprintf("panic: %v", rec)
+		}
+	}()
+	stored := pod.DeepCopy()
+	stored.TypeMeta = metav1.TypeMeta{Kind: "Pod", APIVersion: "v1"}
+	stored.Status.Phase = v1.PodPending
+	objs := []client.Object{stored}
+	for i, g := range groups {
+		idx := "0"
+		if i < len(ids) {
+			idx = ids[i]
+		}
+		objs = append(objs, &v1.Pod{
+			TypeMeta: metav1.TypeMeta{Kind: "Pod", APIVersion: "v1"},
+			ObjectMeta: metav1.ObjectMeta{Name: "gpu-reservation-" + nodeName + "-" + strconv.Itoa(i), Namespace: resNS,
+				Labels: map[string]string{gpuGroupKey: g}, Annotations: map[string]string{gpuIndexAnn: idx}},
+			Spec:   v1.PodSpec{NodeName: nodeName, Containers: []v1.Container{{Name: "reservation"}}},
+			Status: v1.PodStatus{Phase: v1.PodRunning}})
+	}
+	cl := fake.NewClientBuilder().WithObjects(objs...).Build()
+	svc := resourcereservation.NewService(false, cl, "reservation-image", 50*time.Millisecond, resNS,
+		"reservation-sa", "kai-resource-reservation", "kai-scale-adjust", "", nil)
+	ctx := context.Background()
+	bound := pod.DeepCopy() // the binder works on one pod object for all groups (Binder.reserveGPUs)
+	o.Ok = true
+	for _, g := range groups {
+		idx, err := svc.ReserveGpuDevice(ctx, bound, nodeName, g)
+		if err != nil {
+			o.Ok, o.Err = false, err.Error()
+			break
+		}
+		o.Indexes = append(o.Indexes, idx)
+	}
+	after := &v1.Pod{}
+	if err := cl.Get(ctx, client.ObjectKey{Namespace: pod.Namespace, Name: pod.Name}, after); err != nil {
+		o.Ok, o.Err = false, "get pod: "+err.Error()
+		return o
+	}
+	for k, v := range after.Labels {
+		o.Labels[k] = v
+	}
+	ti := pod_info.NewTaskInfo(after, nil, resource_info.NewResourceVectorMap())
+	o.Reread = append(o.Reread, ti.GPUGroups...)
+	sort.Strings(o.Reread)
+	return o
+}
+
+func (o labelObs) term() string {
+	return fmt.Sprintf("{| l_groups := %s; l_ok := %s; l_labels := %s; l_reread := %s |}",
+		u.ListOf(o.Selected, u.Str), u.Bool(o.Ok), dataTerm(o.Labels), u.ListOf(o.Reread, u.Str))
+}
+
+// binderDevices: resources.GetNumGPUFractionDevices and resources.IsMultiFraction on the pod the binder binds.
+func binderDevices(pod *v1.Pod, o *bindObs) (ndevTerm, multiTerm string) {
+	n, err := resources.GetNumGPUFractionDevices(pod.DeepCopy())
+	switch {
+	case err == nil:
+		o.BinderDevices = n
+		ndevTerm = "(NdOk " + u.Z(n) + ")"
+	case strings.Contains(err.Error(), "annotation not found"):
+		o.BinderDevErr, ndevTerm = "not-found", "NdNotFound"
+	default:
+		o.BinderDevErr, ndevTerm = "parse", "NdParseError"
+	}
+	m, merr := resources.IsMultiFraction(pod.DeepCopy())
+	o.IsMulti, o.IsMultiErr = m, merr != nil
+	multiTerm = u.Opt(merr == nil, u.Bool(m))
+	return
 }
 
 func containerRef(pod *v1.Pod) (ref *gpusharingconfigmap.PodContainerRef, err error) {
@@ -315,15 +425,19 @@ func runBinder(plan bindPlan, pod *v1.Pod, devices int64) (string, bindObs) {
 	cl := fake.NewClientBuilder().WithObjects(objs...).Build()
 	o.Pre = listMaps(cl, pod.Namespace)
 
-	n := int(devices)
-	if devices < 1 {
-		n = 1
-	}
-	if devices > 4 {
-		n = 4
-	}
+	o.SchedDevices = devices
+	ndevTerm, multiTerm := binderDevices(pod, &o)
+
 	roundTerms := []string{}
 	for _, g := range plan.Rounds {
+		// as many GPU groups as the scheduler read devices (the node has 8 GPUs)
+		n := len(g.Ids)
+		if devices < int64(n) {
+			n = int(devices)
+		}
+		if n < 1 {
+			n = 1
+		}
 		g.Ids = g.Ids[:n]
 		if g.NodeGpuMemory == 0 {
 			g.NodeGpuMemory = 16384
@@ -357,15 +471,21 @@ func runBinder(plan bindPlan, pod *v1.Pod, devices int64) (string, bindObs) {
 			}
 		}
 		ro.Env = envOfAll(ro.Maps, pod)
+		selected := groups
+		if sg.Ok {
+			selected = sg.Groups
+		}
+		ro.Labels = labelPod(pod, selected, g.Ids)
 		o.Rounds = append(o.Rounds, ro)
 		roundTerms = append(roundTerms, fmt.Sprintf(
-			"{| r_cdi := %s; r_ids := %s; r_portion := %s; r_accepted := %s; r_exact := %s; r_close := %s; r_ok := %s; r_maps := %s; r_env := %s |}",
+			"{| r_cdi := %s; r_ids := %s; r_portion := %s; r_accepted := %s; r_exact := %s; r_close := %s; r_ok := %s; r_maps := %s; r_env := %s; r_lab := %s |}",
 			u.Bool(g.Cdi), u.ListOf(g.Ids, u.Str), u.Str(g.Portion), u.N(math.Float64bits(sg.AcceptedPortion)),
 			u.Bool(ro.PortionExact), u.Bool(ro.PortionClose), u.Bool(ro.Ok), storeTerm(ro.Maps),
 			u.ListOf(ro.Env, func(e contEnv) string {
 				return u.Tuple(e.Type, u.Nat(e.Index), e.Devices.term(), e.Portion.term())
-			})))
+			}), ro.Labels.term()))
 	}
-	term := fmt.Sprintf("{| b_ref := %s; b_pre := %s; b_rounds := %s |}", refTerm, storeTerm(o.Pre), u.List(roundTerms))
+	term := fmt.Sprintf("{| b_ref := %s; b_pre := %s; b_rounds := %s; b_sched_devices := %s; b_ndev := %s; b_multi := %s |}",
+		refTerm, storeTerm(o.Pre), u.List(roundTerms), u.Z(devices), ndevTerm, multiTerm)
 	return term, o
 }
